@@ -1,5 +1,6 @@
 //! Run-time driver: replays TLC-generated cases through the real ts-rs code (built from /repo's
 //! working tree with `--cfg ts_rs_verif`) and writes observations as ndjson.
+mod case;
 mod dump;
 mod history;
 mod paths;
@@ -19,6 +20,7 @@ fn main() {
         "universe" => dump::main(rest),
         "history" => history::main(rest),
         "threads" => threads::main(rest),
+        "case" => case::main(rest),
         _ => {
             eprintln!("usage: rt <paths|...> ...");
             2
